@@ -28,8 +28,11 @@ def docUnits : List (Str × Nat) :=
     ("g", 1024 ^ 3), ("gib", 1024 ^ 3), ("gb", 1000 ^ 3), ("t", 1024 ^ 4), ("tib", 1024 ^ 4), ("tb", 1000 ^ 4),
     ("b", 1) ].map fun (u, m) => (u.toList, m)
 
+/-- the characters of a plain decimal number -/
+def numCh (c : Char) : Bool := isDigit c || c == '.'
+
 def rungWF (r : Str × Nat × Nat × Bool × Nat) : Bool :=
-  !r.1.isEmpty && r.1.all (fun c => !isDigit c && c.toNat < 128) && r.2.1 == r.1.length && r.2.2.1 == r.1.length
+  !r.1.isEmpty && r.1.all (fun c => !numCh c && c.toNat < 128) && r.2.1 == r.1.length && r.2.2.1 == r.1.length
 
 /-- every rung of the generated ladder is well-formed -/
 theorem ladder_wf : sizeLadder.all rungWF = true := by decide
@@ -42,6 +45,12 @@ def firstRung (ladder : List (Str × Nat × Nat × Bool × Nat)) (u : Str) : Opt
 theorem doc_units_first_match :
     docUnits.all (fun (u, m) => match firstRung sizeLadder u with
       | some r => r.1 == u && r.2.2.2.2 == m
+      | none => false) = true := by decide
+
+/-- every documented unit but `b` accepts a fractional number (its rung parses an `f64`) -/
+theorem doc_units_fractional :
+    docUnits.all (fun (u, _) => match firstRung sizeLadder u with
+      | some r => r.2.2.2.1 || u == ['b']
       | none => false) = true := by decide
 
 theorem utf8Len_ascii (s : Str) (h : s.all (fun c => c.toNat < 128) = true) : utf8Len s = s.length := by
@@ -64,9 +73,18 @@ theorem digit_ascii (c : Char) (h : isDigit c = true) : c.toNat < 128 := by
   have : '9'.toNat = 57 := rfl
   omega
 
-/-- a digit-free suffix ends `digits ++ unit` exactly when it ends the unit -/
-theorem endsWith_digits (ds u sfx : Str) (hd : ds.all isDigit = true)
-    (hs : sfx.all (fun c => !isDigit c) = true) (hne : sfx ≠ []) :
+theorem numCh_ascii (c : Char) (h : numCh c = true) : c.toNat < 128 := by
+  simp only [numCh, Bool.or_eq_true, beq_iff_eq] at h
+  rcases h with h | h
+  · exact digit_ascii c h
+  · subst h; decide
+
+theorem digits_numCh (ds : Str) (h : ds.all isDigit = true) : ds.all numCh = true :=
+  List.all_eq_true.mpr fun c hc => by simp [numCh, List.all_eq_true.mp h c hc]
+
+/-- a suffix free of number characters ends `number ++ unit` exactly when it ends the unit -/
+theorem endsWith_digits (ds u sfx : Str) (hd : ds.all numCh = true)
+    (hs : sfx.all (fun c => !numCh c) = true) (hne : sfx ≠ []) :
     endsWith (ds ++ u) sfx = (decide (sfx.length ≤ u.length) && endsWith u sfx) := by
   unfold endsWith
   by_cases hl : sfx.length ≤ u.length
@@ -98,20 +116,20 @@ theorem endsWith_digits (ds u sfx : Str) (hd : ds.all isDigit = true)
       cases t with
       | nil => exact htne rfl
       | cons c t' =>
-        have hc1 : isDigit c = true := by
+        have hc1 : numCh c = true := by
           have : c ∈ ds := by rw [this]; simp
           exact List.all_eq_true.mp hd c this
-        have hc2 : (!isDigit c) = true := by
+        have hc2 : (!numCh c) = true := by
           have : c ∈ sfx := by rw [← ht]; simp
           exact List.all_eq_true.mp hs c this
         simp [hc1] at hc2
 
-/-- on `digits ++ unit` a well-formed ladder selects `firstRung unit` and applies it to the digits -/
+/-- on `number ++ unit` a well-formed ladder selects `firstRung unit` and applies it to the number text -/
 theorem sizeRung_digits (ladder : List (Str × Nat × Nat × Bool × Nat)) (hwf : ladder.all rungWF = true)
-    (ds u : Str) (hd : ds.all isDigit = true) (hdne : ds ≠ []) (hu : u.all (fun c => c.toNat < 128) = true)
+    (ds u : Str) (hd : ds.all numCh = true) (hdne : ds ≠ []) (hu : u.all (fun c => c.toNat < 128) = true)
     (r : Str × Nat × Nat × Bool × Nat) (hr : firstRung ladder u = some r) (hru : r.1 = u) :
     sizeRung (ds ++ u) ladder =
-      some (if r.2.2.2.1 then (parseF64? ds).map (fun v => (v.mul (Num.ofNat r.2.2.2.2)).toU64)
+      some (if r.2.2.2.1 then (parseF64? ds).map (fun v => (scaleSize ds v r.2.2.2.2).1)
             else (parseU64? ds).map (· * r.2.2.2.2)) := by
   have hlen : utf8Len (ds ++ u) = ds.length + u.length := by
     rw [utf8Len_ascii]
@@ -119,7 +137,7 @@ theorem sizeRung_digits (ladder : List (Str × Nat × Nat × Bool × Nat)) (hwf 
     · rw [List.all_append, Bool.and_eq_true]
       refine ⟨?_, hu⟩
       exact List.all_eq_true.mpr fun c hc => by
-        simpa using digit_ascii c (List.all_eq_true.mp hd c hc)
+        simpa using numCh_ascii c (List.all_eq_true.mp hd c hc)
   have hdl : 0 < ds.length := by cases ds with | nil => exact absurd rfl hdne | cons _ _ => simp
   induction ladder with
   | nil => simp [firstRung] at hr
@@ -130,7 +148,7 @@ theorem sizeRung_digits (ladder : List (Str × Nat × Nat × Bool × Nat)) (hwf 
     simp only [rungWF, Bool.and_eq_true, Bool.not_eq_true', beq_iff_eq] at hq
     obtain ⟨⟨⟨hq1, hq2⟩, hq3⟩, hq4⟩ := hq
     have hsne : sfx ≠ [] := by intro e; subst e; simp at hq1
-    have hsnd : sfx.all (fun c => !isDigit c) = true :=
+    have hsnd : sfx.all (fun c => !numCh c) = true :=
       List.all_eq_true.mpr fun c hc => by
         have := List.all_eq_true.mp hq2 c hc
         simp only [Bool.and_eq_true, Bool.not_eq_true'] at this
@@ -172,6 +190,162 @@ theorem sizeRung_digits (ladder : List (Str × Nat × Nat × Bool × Nat)) (hwf 
 theorem ratTrunc_natCast (k : Nat) : ratTrunc (k : Rat) = (k : Int) := by
   simp [ratTrunc, Rat.num_natCast, Rat.den_natCast]
 
+/-! ### plain decimal numbers -/
+
+theorem foldl_digits (b : Str) : ∀ acc : Nat,
+    b.foldl (fun acc c => acc * 10 + digitVal c) acc = acc * 10 ^ b.length + b.foldl (fun acc c => acc * 10 + digitVal c) 0 := by
+  induction b with
+  | nil => intro acc; simp
+  | cons c b ih =>
+    intro acc
+    simp only [List.foldl_cons, List.length_cons]
+    rw [ih (acc * 10 + digitVal c), ih (0 * 10 + digitVal c)]
+    rw [Nat.pow_succ, Nat.add_mul, Nat.zero_mul, Nat.zero_add]
+    have : acc * 10 * 10 ^ b.length = acc * (10 ^ b.length * 10) := by
+      rw [Nat.mul_assoc, Nat.mul_comm 10]
+    omega
+
+/-- the digits of `a` followed by the digits of `b` read as one number -/
+theorem digitsVal_app (a b : Str) : digitsVal (a ++ b) = digitsVal a * 10 ^ b.length + digitsVal b := by
+  unfold digitsVal
+  rw [List.foldl_append, foldl_digits]
+
+theorem takeWhile_stop {α : Type} (p : α → Bool) (l : List α) (x : α) (r : List α) (h : l.all p = true) (hx : p x = false) :
+    (l ++ x :: r).takeWhile p = l ∧ (l ++ x :: r).dropWhile p = x :: r := by
+  induction l with
+  | nil => simp [List.takeWhile, List.dropWhile, hx]
+  | cons a l ih =>
+    simp only [List.all_cons, Bool.and_eq_true] at h
+    simp [List.takeWhile, List.dropWhile, h.1, ih h.2]
+
+theorem digit_ne (c d : Char) (hc : isDigit c = true) (hd : isDigit d = false) : c ≠ d := by
+  intro e; rw [e] at hc; rw [hc] at hd; exact absurd hd (by decide)
+
+theorem strip_plus_digits : (ds : Str) → ds.all isDigit = true → stripPlus ds = ds
+  | [], _ => rfl
+  | c :: t, hd => by
+    simp only [List.all_cons, Bool.and_eq_true] at hd
+    have hc : c ≠ '+' := digit_ne c '+' hd.1 (by decide)
+    unfold stripPlus
+    split
+    · rename_i t' heq
+      simp only [List.cons.injEq] at heq
+      exact absurd heq.1 hc
+    · rfl
+
+theorem ne_dot_of_digit (ds : Str) (hd : ds.all isDigit = true) : ds.all (fun c => c != '.') = true :=
+  List.all_eq_true.mpr fun c hc => by
+    have := digit_ne c '.' (List.all_eq_true.mp hd c hc) (by decide)
+    simpa using this
+
+/-- `scale_size`'s reading of `<digits>` -/
+theorem plainDecimal_int (ds : Str) (hd : ds.all isDigit = true) (hne : ds ≠ []) :
+    plainDecimal? ds = some (digitsVal ds, 0) := by
+  unfold plainDecimal?
+  have h1 := ne_dot_of_digit ds hd
+  simp only [takeWhile_all _ ds h1, dropWhile_all _ ds h1, List.drop_nil, strip_plus_digits ds hd, List.append_nil]
+  have he : ds.isEmpty = false := by cases ds with | nil => exact absurd rfl hne | cons _ _ => rfl
+  simp [he, hd]
+
+/-- `scale_size`'s reading of `<digits>.<digits>` -/
+theorem plainDecimal_frac (ds fs : Str) (hd : ds.all isDigit = true) (hne : ds ≠ []) (hfs : fs.all isDigit = true) :
+    plainDecimal? (ds ++ '.' :: fs) = some (digitsVal (ds ++ fs), fs.length) := by
+  unfold plainDecimal?
+  have h1 := ne_dot_of_digit ds hd
+  obtain ⟨t1, t2⟩ := takeWhile_stop (fun c => c != '.') ds '.' fs h1 (by decide)
+  simp only [t1, t2, List.drop_succ_cons, List.drop_zero, strip_plus_digits ds hd]
+  have he : ds.isEmpty = false := by cases ds with | nil => exact absurd rfl hne | cons _ _ => rfl
+  have hall : (ds ++ fs).all isDigit = true := by rw [List.all_append, hd, hfs]; rfl
+  simp [he, hall]
+
+/-- `"<digits>.<digits>".parse::<f64>()` succeeds -/
+theorem parseF64_plain (ds fs : Str) (hd : ds.all isDigit = true) (hne : ds ≠ []) (hfs : fs.all isDigit = true) :
+    ∃ v, parseF64? (ds ++ '.' :: fs) = some v := by
+  cases ds with
+  | nil => exact absurd rfl hne
+  | cons c t =>
+    simp only [List.all_cons, Bool.and_eq_true] at hd
+    have hsplit : splitSign (c :: t ++ '.' :: fs) = (false, c :: t ++ '.' :: fs) := by
+      unfold splitSign
+      split
+      · rename_i r heq
+        simp only [List.cons_append, List.cons.injEq] at heq
+        exact absurd heq.1 (digit_ne c '-' hd.1 (by decide))
+      · rename_i r heq
+        simp only [List.cons_append, List.cons.injEq] at heq
+        exact absurd heq.1 (digit_ne c '+' hd.1 (by decide))
+      · rfl
+    have hlc : lowerAscii c = c := by
+      have := lowerStr_digits [c] (by simp [hd.1])
+      simpa [lowerStr] using this
+    have hword : ∀ (d : Char) (w : Str), isDigit d = false → (lowerStr (c :: t ++ '.' :: fs) == d :: w) = false := by
+      intro d w hdg
+      have : c ≠ d := digit_ne c d hd.1 hdg
+      simp [lowerStr, hlc, this]
+    have w1 : (lowerStr (c :: t ++ '.' :: fs) == ofS "inf") = false := hword 'i' ['n', 'f'] (by decide)
+    have w2 : (lowerStr (c :: t ++ '.' :: fs) == ofS "infinity") = false := hword 'i' ['n', 'f', 'i', 'n', 'i', 't', 'y'] (by decide)
+    have w3 : (lowerStr (c :: t ++ '.' :: fs) == ofS "nan") = false := hword 'n' ['a', 'n'] (by decide)
+    unfold parseF64?
+    simp only [hsplit, w1, w2, w3, Bool.or_self, Bool.false_eq_true, if_false]
+    have hall : (c :: t).all isDigit = true := by simp [hd.1, hd.2]
+    obtain ⟨t1, t2⟩ := takeWhile_stop isDigit (c :: t) '.' fs hall (by decide)
+    unfold parseUnsignedDecimal
+    simp only [t1, t2, takeWhile_all isDigit fs hfs, dropWhile_all isDigit fs hfs, List.isEmpty_cons, Bool.false_and,
+      Bool.false_eq_true, if_false, parseExponent]
+    exact ⟨_, rfl⟩
+
+theorem norm_literal (b u : Str) (hb : b.all numCh = true) (hl1 : lowerStr u = u) (hl3 : u.filter (· != ' ') = u) :
+    (lowerStr (b ++ u)).filter (· != ' ') = b ++ u := by
+  have hlb : lowerStr b = b := by
+    induction b with
+    | nil => rfl
+    | cons c b ih =>
+      simp only [List.all_cons, Bool.and_eq_true] at hb
+      have hc : lowerAscii c = c := by
+        have hh := hb.1
+        simp only [numCh, Bool.or_eq_true, beq_iff_eq] at hh
+        rcases hh with h | h
+        · have := lowerStr_digits [c] (by simp [h])
+          simpa [lowerStr] using this
+        · subst h; decide
+      simp only [lowerStr, List.map_cons, hc] at *
+      rw [ih hb.2]
+  have h1 : lowerStr (b ++ u) = b ++ u := by
+    simp only [lowerStr, List.map_append] at *
+    rw [hlb, hl1]
+  rw [h1, List.filter_append, hl3]
+  congr 1
+  apply List.filter_eq_self.mpr
+  intro c hc
+  have hh := List.all_eq_true.mp hb c hc
+  have : c ≠ ' ' := by
+    intro e; subst e; exact absurd hh (by decide)
+  simpa using this
+
+/-- whole numbers: `scale_size` (either way it is computed) yields the product -/
+theorem scaleSize_nat (n m : Nat) (hm : 0 < m) (hfit : n * m ≤ u64Max) :
+    (scaleSize (showNat n) (Num.mk (n : Rat) true) m).1 = n * m := by
+  have hfloat : ((Num.mk (n : Rat) true).mul (Num.ofNat m)).toU64 = n * m := by
+    simp only [Num.mk, Num.ofNat, Num.mul, Num.toU64]
+    have hq : (n : Rat) * (m : Rat) = ((n * m : Nat) : Rat) := by simp [Rat.natCast_mul]
+    rw [hq]
+    rw [ratTrunc_natCast]
+    have h0 : ¬ (((n * m : Nat) : Int) < 0) := by omega
+    simp only [h0, if_false, Int.toNat_natCast]
+    have : ¬ (n * m > u64Max) := by omega
+    simp [this]
+  unfold scaleSize
+  cases hs : sizeScaledInIntegers with
+  | false => simp only [Bool.false_eq_true, if_false]; exact hfloat
+  | true =>
+    simp only [if_true, plainDecimal_int (showNat n) (showNat_all_digits n) (showNat_ne_nil n), digitsVal_showNat]
+    have h64 : u64Max ≤ u128Max := by decide
+    have hn : n ≤ u64Max := Nat.le_trans (Nat.le_mul_of_pos_right n hm) hfit
+    have c1 : (decide (n ≤ u128Max) && decide (0 ≤ 38) && decide (n * m ≤ u128Max)) = true := by
+      simp; omega
+    simp only [c1, if_true, Nat.pow_zero, Nat.div_one]
+    exact Nat.min_eq_left hfit
+
 /-- **unit table**: `<n><unit>` denotes n × the documented multiplier, for every n and documented unit -/
 theorem unit_table (n : Nat) (u : Str) (m : Nat) (hum : (u, m) ∈ docUnits) (hfit : n * m ≤ u64Max) :
     parseFilesize (showNat n ++ u) = some (n * m) := by
@@ -204,7 +378,7 @@ theorem unit_table (n : Nat) (u : Str) (m : Nat) (hum : (u, m) ∈ docUnits) (hf
   | some r =>
     simp only [hfr, Bool.and_eq_true, beq_iff_eq] at hall
     obtain ⟨hr1, hr2⟩ := hall
-    rw [sizeRung_digits sizeLadder ladder_wf (showNat n) u hdig (showNat_ne_nil n) hl2 r hfr hr1]
+    rw [sizeRung_digits sizeLadder ladder_wf (showNat n) u (digits_numCh _ hdig) (showNat_ne_nil n) hl2 r hfr hr1]
     simp only [hr2]
     have hbig : ((n : Nat) : Rat) < ((2 ^ 1024 : Nat) : Rat) := by
       apply Rat.natCast_lt_natCast.mpr
@@ -215,18 +389,72 @@ theorem unit_table (n : Nat) (u : Str) (m : Nat) (hum : (u, m) ∈ docUnits) (hf
     | false =>
       simp [parseU64_showNat n hnn]
     | true =>
-      simp only [if_true, parseF64_showNat n hbig, Option.map_some]
-      -- (n : ℚ) * m truncates to n * m
-      have hval : ((Num.mk (n : Rat) true).mul (Num.ofNat m)).toU64 = n * m := by
-        simp only [Num.mk, Num.ofNat, Num.mul, Num.toU64]
-        have hq : (n : Rat) * (m : Rat) = ((n * m : Nat) : Rat) := by simp [Rat.natCast_mul]
-        rw [hq]
-        rw [ratTrunc_natCast]
-        have h0 : ¬ (((n * m : Nat) : Int) < 0) := by omega
-        simp only [h0, if_false, Int.toNat_natCast]
-        have : ¬ (n * m > u64Max) := by omega
-        simp [this]
-      simp [hval]
+      simp only [if_true, parseF64_showNat n hbig, Option.map_some, scaleSize_nat n m hmpos hfit]
+
+/-- **fractional numbers**: `<digits>.<digits><unit>` denotes the decimal number × the documented
+    multiplier, rounded down — exactly, for every number of at most 38 fraction digits whose scaled digits fit
+    `u128` (saturating at `u64::MAX`), for every documented unit except `b` (which takes whole numbers only).
+    Holds when the float rungs go through `scale_size` (`sizeScaledInIntegers`, read from the source on every
+    run; D67 made it so). -/
+theorem fraction_table (ds fs u : Str) (m : Nat) (hum : (u, m) ∈ docUnits) (hub : u ≠ ['b'])
+    (hd : ds.all isDigit = true) (hne : ds ≠ []) (hfs : fs.all isDigit = true)
+    (hsc : sizeScaledInIntegers = true) (hk : fs.length ≤ 38) (hfit : digitsVal (ds ++ fs) * m ≤ u128Max) :
+    parseFilesize (ds ++ '.' :: fs ++ u) = some (min (digitsVal (ds ++ fs) * m / 10 ^ fs.length) u64Max) := by
+  have hall := List.all_eq_true.mp doc_units_first_match (u, m) hum
+  have hfl := List.all_eq_true.mp doc_units_fractional (u, m) hum
+  simp only at hall hfl
+  have hlow : lowerStr u = u ∧ u.all (fun c => c.toNat < 128) = true ∧ (u.filter (· != ' ')) = u ∧ 0 < m := by
+    simp only [docUnits, List.map_cons, List.map_nil, List.mem_cons, Prod.mk.injEq, List.mem_nil_iff, or_false] at hum
+    rcases hum with ⟨rfl, rfl⟩ | ⟨rfl, rfl⟩ | ⟨rfl, rfl⟩ | ⟨rfl, rfl⟩ | ⟨rfl, rfl⟩ | ⟨rfl, rfl⟩ | ⟨rfl, rfl⟩ | ⟨rfl, rfl⟩ |
+      ⟨rfl, rfl⟩ | ⟨rfl, rfl⟩ | ⟨rfl, rfl⟩ | ⟨rfl, rfl⟩ | ⟨rfl, rfl⟩ <;> decide
+  obtain ⟨hl1, hl2, hl3, hmpos⟩ := hlow
+  have hbody : (ds ++ '.' :: fs).all numCh = true := by
+    rw [List.all_append, List.all_cons, digits_numCh ds hd, digits_numCh fs hfs]; decide
+  have hbne : ds ++ '.' :: fs ≠ [] := by simp
+  have hnorm := norm_literal (ds ++ '.' :: fs) u hbody hl1 hl3
+  unfold parseFilesize
+  rw [show ds ++ '.' :: fs ++ u = (ds ++ '.' :: fs) ++ u from by simp] 
+  simp only [hnorm]
+  cases hfr : firstRung sizeLadder u with
+  | none => simp [hfr] at hall
+  | some r =>
+    simp only [hfr, Bool.and_eq_true, beq_iff_eq] at hall
+    simp only [hfr, Bool.or_eq_true, beq_iff_eq] at hfl
+    obtain ⟨hr1, hr2⟩ := hall
+    have hisf : r.2.2.2.1 = true := by
+      rcases hfl with h | h
+      · exact h
+      · exact absurd h hub
+    rw [sizeRung_digits sizeLadder ladder_wf (ds ++ '.' :: fs) u hbody hbne hl2 r hfr hr1]
+    obtain ⟨v, hv⟩ := parseF64_plain ds fs hd hne hfs
+    simp only [hisf, if_true, hv, Option.map_some, hr2]
+    unfold scaleSize
+    simp only [hsc, if_true, plainDecimal_frac ds fs hd hne hfs]
+    have hdv : digitsVal (ds ++ fs) ≤ u128Max := Nat.le_trans (Nat.le_mul_of_pos_right _ hmpos) hfit
+    have c1 : (decide (digitsVal (ds ++ fs) ≤ u128Max) && decide (fs.length ≤ 38) && decide (digitsVal (ds ++ fs) * m ≤ u128Max)) = true := by
+      simp [hdv, hk, hfit]
+    simp only [c1, if_true]
+
+/-- the number a plain decimal denotes: its digits read as one integer, over 10^(fraction digits) -/
+theorem decimal_value (ds fs : Str) : digitsVal (ds ++ fs) = digitsVal ds * 10 ^ fs.length + digitsVal fs :=
+  digitsVal_app ds fs
+
+/-- D67's witnesses: `1.001kb` is 1001 bytes and `4.1mb` is 4 100 000 bytes (the float products are
+    1000.9999999999999 and, in one multiplication, 4099999.9999999995) -/
+example (h : sizeScaledInIntegers = true) :
+    parseFilesize (ofS "1.001kb") = some 1001 ∧ parseFilesize (ofS "4.1mb") = some 4100000 := by
+  have hk : (ofS "kb", 1000) ∈ docUnits := by decide
+  have hm : (ofS "mb", 1000 ^ 2) ∈ docUnits := by decide
+  have f1 : digitsVal (ofS "1" ++ ofS "001") * 1000 ≤ u128Max := by decide
+  have f2 : digitsVal (ofS "4" ++ ofS "1") * 1000 ^ 2 ≤ u128Max := by decide
+  have a := fraction_table (ofS "1") (ofS "001") (ofS "kb") 1000 hk (by decide) (by decide) (by decide) (by decide) h (by decide) f1
+  have b := fraction_table (ofS "4") (ofS "1") (ofS "mb") (1000 ^ 2) hm (by decide) (by decide) (by decide) (by decide) h (by decide) f2
+  have e1 : ofS "1.001kb" = ofS "1" ++ '.' :: ofS "001" ++ ofS "kb" := by decide
+  have e2 : ofS "4.1mb" = ofS "4" ++ '.' :: ofS "1" ++ ofS "mb" := by decide
+  have v1 : min (digitsVal (ofS "1" ++ ofS "001") * 1000 / 10 ^ (ofS "001").length) u64Max = 1001 := by decide
+  have v2 : min (digitsVal (ofS "4" ++ ofS "1") * 1000 ^ 2 / 10 ^ (ofS "1").length) u64Max = 4100000 := by decide
+  rw [e1, e2, a, b, v1, v2]
+  exact ⟨rfl, rfl⟩
 
 /-- letter case of a literal never matters: `parse_filesize` lower-cases first -/
 theorem unit_case_insensitive (s t : Str) (h : lowerStr s = lowerStr t) : parseFilesize s = parseFilesize t := by
